@@ -67,6 +67,7 @@ def field_of(node, name):
 
 class Prop(BaseProp):
     ID = "C10"
+    PIPELINES = True      # a fixed share of the cases goes through cminx.main (-o and stdout) instead of the Documenter
     ANCHORS = ['cminx.aggregator:DocumentationAggregator.process_set', 'cminx.aggregator:DocumentationAggregator.process_option', 'cminx.documentation_types:VariableDocumentation.process', 'cminx.documentation_types:OptionDocumentation.process']
     LEVEL = "exploration"
     RULE = ("set() with 0-6 values and option() with/without default, every value drawn from 5 argument forms x "
